@@ -969,7 +969,7 @@ class Rinex212NavParser(ChainParser):
 def _float(value: str) -> float:
     """Convert string to float value
 
-    Convert a string to a floating point number (including, e.g. -0.5960D-01). Whitespace or empty value is set to 0.0.
+    Convert a string to a floating point number (including, e.g. -0.5960D-01 or -0.5960d-01). Whitespace or empty value is set to 0.0.
 
     Args:
         value:   string value
@@ -980,7 +980,7 @@ def _float(value: str) -> float:
     if value.isspace() or not value:
         return 0.0
     else:
-        return float(value.replace("D", "e"))
+        return float(value.replace("D", "e").replace("d", "e"))
 
 
 # TODO: Maybe better to have this routine in a module.
